@@ -243,6 +243,7 @@ def run_schedule(rp, choices, drain=True):
         popen_mod.sp.Popen, ru.ru_open = saved
         HookTask.__setitem__ = dict.__setitem__
     quiet = all(ctl.where(n) in ('done', 'idle') for n in ctl.workers) and not to_watch and p._watch_queue.empty()
+    ctl.close()
     return obs, done, rec, quiet
 
 
@@ -302,6 +303,7 @@ def run_bulk(rp, tasks):
             ctl.grant('watcher')
     finally:
         popen_mod.sp.Popen, ru.ru_open = saved
+        ctl.close()
     evs = []
     for r in rec:
         n = int(r[1].split('.')[1])
